@@ -37,13 +37,17 @@ def run_config(v, ctx, tftpd, tier, combo, rng):
     put("srv", send_files, "exist_short.bin", N.keyed_content("s-short", 300))
     put("srv", send_files, "exist_long.bin", N.keyed_content("s-long", 5000))
     put("srv", send_files, "sub/in_sub.bin", N.keyed_content("s-sub", 700))
+    put("srv", send_files, "exist_empty.bin", b"")
+    put("srv", send_files, "sub/empty_in_sub.bin", b"")
     if dist:
         put("rcv", recv_files, "exist_short.bin", N.keyed_content("r-short", 200))
         put("rcv", recv_files, "exist_long.bin", N.keyed_content("r-long", 4000))
         put("rcv", recv_files, "sub/in_sub.bin", N.keyed_content("r-sub", 900))
         put("rcv", recv_files, "only_rcv.bin", N.keyed_content("r-only", 100))
+        put("rcv", recv_files, "exist_empty.bin", b"")
+        put("rcv", recv_files, "sub/empty_in_sub.bin", b"")
     write(os.path.join(sb["outside"], "canary.txt"), b"outside canary")
-    targets = ["missing1.bin", "missing2.bin", "exist_short.bin", "exist_long.bin", "sub/in_sub.bin", "sub/missing_in_sub.bin", "only_rcv.bin"]
+    targets = ["missing1.bin", "missing2.bin", "exist_short.bin", "exist_long.bin", "sub/in_sub.bin", "sub/missing_in_sub.bin", "only_rcv.bin", "exist_empty.bin", "sub/empty_in_sub.bin"]
     reqs = [(kind, t, o) for kind in ("RRQ", "WRQ") for t in targets for o in OPTSETS]
     # requests that must be refused whatever their options say: also with an out-of-range option value
     bad = [(kind, t, o) for kind in ("RRQ", "WRQ") for t in targets for o in BAD_OPTSETS]
@@ -51,7 +55,7 @@ def run_config(v, ctx, tftpd, tier, combo, rng):
     reqs += bad[:20]
     rng.shuffle(reqs)
     if tier != "thorough":
-        reqs = reqs[:56]
+        reqs = reqs[:76]
     srv = N.Server(tftpd, sb["srv"], single=single, read_only=ro, overwrite=ow, keep=keep,
                    send_dir=sb["srv"] if dist else None, recv_dir=sb["rcv"] if dist else None, logdir=sb["logs"], shuffle=rng)
     pool = [N._sock(timeout=2.0) for _ in range(3)]
